@@ -405,14 +405,20 @@ def alone_steppable(ctx: Ctx):
         cls = ctx.repo.get_class(path, cname)
         for m in cls.methods.values():
             ctx.fn(m)
-            bad = [c for c in _ast.walk(m.node) if isinstance(c, _ast.Call) and isinstance(c.func, _ast.Attribute) and c.func.attr == "squeeze" and not c.args and not c.keywords]
+            def _scalar(e):
+                # a full reduction has no axes left: squeezing it is a no-op for every batch size
+                return isinstance(e, _ast.Call) and isinstance(e.func, _ast.Attribute) and e.func.attr in ("sum", "mean", "max", "min", "prod", "std", "var", "norm", "numel", "item") and not e.args and not e.keywords
+            bad = [c for c in _ast.walk(m.node) if isinstance(c, _ast.Call) and isinstance(c.func, _ast.Attribute) and c.func.attr == "squeeze" and not c.args and not c.keywords
+                   and not _scalar(c.func.value)]
             for c in bad:
                 ctx.ob("C04.e", f"{cname}.{m.name}:dimension-less-squeeze", False, f"{path}:{c.lineno}",
                        f"`{_ast.unparse(c)[:80]}` also removes the batch axis when B = 1: the improvement envs index with these [B] / [B, 1] tensors",
                        construct=f"{cname}.{m.name}:squeeze-all:{alpha_key(_ast.unparse(c))}")
         n_sq = sum(1 for m in cls.methods.values() for c in _ast.walk(m.node) if isinstance(c, _ast.Call) and isinstance(c.func, _ast.Attribute) and c.func.attr == "squeeze")
         ctx.ob("C04.e", f"{cname}:squeezes-name-their-axis", True, path, f"{n_sq} squeeze calls in the class, every one names the axis") \
-            if not any(isinstance(c, _ast.Call) and isinstance(c.func, _ast.Attribute) and c.func.attr == "squeeze" and not c.args and not c.keywords
+            if not any(isinstance(c, _ast.Call) and isinstance(c.func, _ast.Attribute) and c.func.attr == "squeeze" and not c.args and not c.keywords and
+                       not (isinstance(c.func.value, _ast.Call) and isinstance(c.func.value.func, _ast.Attribute) and c.func.value.func.attr in ("sum", "mean", "max", "min", "prod", "std", "var", "norm", "numel", "item")
+                            and not c.func.value.args and not c.func.value.keywords)
                        for m in cls.methods.values() for c in _ast.walk(m.node)) else None
 
 
